@@ -92,6 +92,7 @@ def real_cli_cases():
     v4 = "CVSS:4.0/AV:N/AC:L/AT:N/PR:N/UI:N/VC:H/VI:L/VA:N/SC:N/SI:N/SA:N/E:P/U:Red"
     cases = [(["-v", v31], ""), (["-3", "-v", v30], ""), (["-2", "-v", v2], ""), (["-4", "-v", v4], ""),
              (["-2", "-j", "-v", v2], ""), (["-4", "-j", "-v", v4], ""), (["-j", "-v", v31], ""),
+             (["-2j", "-v", v2], ""), (["-4nj", "-v" + v4], ""), (["-jv", v31], ""), (["-3v" + v30], ""),
              (["-2", "-v", v31], ""), (["-4", "-v", v2], ""), (["-v", v31 + "/"], ""), (["-2", "-4", "-v", v2], ""),
              (["-2", "-n"], "N\nL\nN\nP\nP\nC\n"), (["-4", "-n"], "N\nL\nN\nN\nN\nH\nL\n"), (["-n"], ""),
              (["-4", "-a", "-n"], "\n".join(["N", "L", "N", "N", "N", "H", "H", "H", "N", "N", "N"] + [""] * 20 + ["Red"]) + "\n"),
